@@ -80,7 +80,7 @@ BerV(env, T, v, impl, st, depth) ==
          LET tg == IF impl = NoTag THEN Tag(T.cl, T.num) ELSE impl
          IN IF T.mode = "E" THEN Wrap(st, tg, TRUE, BerV(env, T.t, v, NoTag, st, depth + 1), depth)
             ELSE BerV(env, T.t, v, tg, st, depth)
-    [] T.k = "REF" -> BerV(env, env[T.n], v, impl, st, depth)
+    [] IsRef(T) -> BerV(env, Follow(env, T), v, impl, st, depth)
     [] T.k = "CHOICE" -> BerV(env, CompByName(T, AltOf(v)).t, AltVal(v), NoTag, st, depth)
     [] T.k = "SEQUENCE" ->
          Wrap(st, TagOr(impl, T), TRUE,
@@ -132,7 +132,7 @@ NoDefaults(env, T) ==
   CASE T.k \in {"SEQUENCE", "SET"} ->
          [T EXCEPT !.comps = [i \in DOMAIN T.comps |->
                                  IF T.comps[i].o = "D" THEN [n |-> T.comps[i].n, t |-> T.comps[i].t, o |-> "O"] ELSE T.comps[i]]]
-    [] T.k = "REF" -> NoDefaults(env, env[T.n])
+    [] IsRef(T) -> NoDefaults(env, Follow(env, T))
     [] T.k = "TAGGED" -> [T EXCEPT !.t = NoDefaults(env, T.t)]
     [] OTHER -> T
 \* the value with every top-level DEFAULT component made explicit
@@ -148,7 +148,7 @@ HasTopDefault(env, T0) == LET T == Resolve(env, T0) IN
 RECURSIVE Newer(_, _)
 Newer(env, T) ==
   CASE T.k = "SEQUENCE" -> [T EXCEPT !.adds = @ \o <<Comp("zz-unknown", TTag("P", 777, "I", TOctets(CNone)), "O")>>]
-    [] T.k = "REF" -> Newer(env, env[T.n])
+    [] IsRef(T) -> Newer(env, Follow(env, T))
     [] T.k = "TAGGED" -> [T EXCEPT !.t = Newer(env, T.t)]
     [] OTHER -> T
 IsExtSeq(env, T0) == LET T == Resolve(env, T0) IN T.k = "SEQUENCE" /\ T.ext
